@@ -868,7 +868,7 @@ def shuffle_test(
 
         - 'Threshold': float, the (1-α) percentile of the null distribution
         - 'Value': float, the observed conditional mutual information value
-        - 'Pass': bool, True if observed_cmi >= threshold (statistically significant)
+        - 'Pass': bool, True if observed_cmi > threshold (statistically significant)
         - 'P_value': float, empirical p-value (proportion of null values >= observed)
 
     Notes
@@ -917,7 +917,7 @@ def shuffle_test(
     return {
         "Threshold": threshold,
         "Value": observed_cmi,
-        "Pass": observed_cmi >= threshold,
+        "Pass": observed_cmi > threshold,
         "P_value": p_value,
     }
 
